@@ -10,6 +10,7 @@ import glob
 import os
 import re
 
+from .. import asynclog_common as ac
 from ..common import CORPUS
 from ..runner import Case, ddmin
 
@@ -57,8 +58,8 @@ def read_case(path):
 class Prop:
     id = "C16"
     lean_module = "MuduoVerif.Props.C16"
-    gen_engines = ["LogFile"]
-    drivers = ["logfile"]
+    gen_engines = ["LogFile", "AsyncLog"]
+    drivers = ["logfile", "asynclog"]
     technique = ("Lean 4 invariant proofs over a pure-function model of LogFile/AppendFile and a thread-indexed transition "
                  "system of AsyncLogging + T1 extraction of every guard/constant + differential runs (T2 scripted clock and "
                  "fwrite results; T3 deterministic schedules) + independent file-content oracle")
@@ -76,20 +77,35 @@ class Prop:
     rule = ("LogFile: sequences of new/append/flush/roll/destroy/files with roll sizes 0..1000, checkEveryN 1..1024, "
             "flush intervals 0..3, clock steps from {0,1,2,5,a day,backwards}, records 0..70000 bytes, scripted "
             "short/zero/error fwrite results; a case is non-trivial when at least one file was rolled or one scripted "
-            "fwrite result was consumed; distinct = distinct observation traces.")
+            "fwrite result was consumed.  AsyncLogging (real 4 MB buffers): T0 = [appends] start [appends] [stop] [appends], "
+            "then joins the appenders and destroys the object; 0..3 appending threads with 1..6 records each; record lengths "
+            "from {1,2,23,24,25,100,4000, size/4, size/3, size/2 -1/0/+1, size-2, size-1} and lengths steered to avail()==len "
+            "and avail()==len+1; 4% of the cases queue 25..28 full buffers between two back-end cycles (announced drop); "
+            "30% offer spurious wake-ups; schedules of 0..50 decisions (dense and sparse) over the yield points (every "
+            "mutex acquisition, the timed wait incl. its time-out, threadFunc:swapped, threadFunc:beforeRetest, start, stop, "
+            "destruction, joins, thread exits); a run is non-trivial when a buffer switch happened or the scheduler had a "
+            "real decision.  distinct = distinct observation traces.")
     trusted_base = [
         "Lean 4.33.0 kernel; axioms allowed: propext, Classical.choice, Quot.sound",
-        "vlib/extract.py + vlib/gen/logfile.py (clang-14 JSON AST -> Generated/LogFile.lean)",
-        "hand-written Model/LogFile.lean and Model/AsyncLog.lean, tied by the differential runs",
+        "vlib/extract.py + vlib/gen/logfile.py, vlib/gen/asynclog.py (clang-14 JSON AST -> Generated/LogFile.lean, "
+        "Generated/AsyncLog.lean: guards, constants, and the statement sequence of every critical section / phase of AsyncLogging)",
+        "hand-written Model/LogFile.lean and Model/AsyncLog.lean (meaning of one statement shape, control skeleton of "
+        "threadFunc, FixedBuffer::append), tied by the differential runs",
         "harness/interpose.h, harness/stdio_interpose.h (link-level interposition of time/fopen/fwrite_unlocked/fflush/ferror/fclose)",
+        "harness/sched/detsched.h (link-level interposition of pthread mutex/cond/create/join; one thread runs at a time) and "
+        "the atomicity argument at the head of Model/AsyncLog.lean (shared buffers only under mutex_, running_ atomic)",
+        "harness/asynclog_drv.cc: record contents are self-describing; the files are read back from disk and parsed by the harness",
         "glibc stdio: the bytes fwrite_unlocked accepts are the first bytes of the request and reach the file in order; fclose flushes",
     ]
     assumptions = [
         "time() > 0 when a LogFile is constructed (otherwise no file is opened; the harness rejects such a construction)",
         "fwrite_unlocked never reports more than the request; an endless sequence of zero-length results without the "
         "error flag (the loop would not terminate) is outside the model (a finite script is followed by full writes)",
-        "records are shorter than the 4 MB AsyncLogging buffer (explicit hypothesis; the excluded branch is a theorem)",
-        "start() once, stop() once after start() returned; appends may race with both",
+        "records are shorter than the 4 MB AsyncLogging buffer (explicit hypothesis `r.len < cap`; the excluded branch is the "
+        "theorem oversize_dropped: such a record is ignored by FixedBuffer::append without announcement)",
+        "start() once, stop() at most once and after start() returned (else the destructor stops); appends may race with both; "
+        "records appended after stop() was called are promised nothing",
+        "AsyncLogging's steps are atomic between two scheduling points; data races below that granularity are the subject of C08",
     ]
     partial_theorems = []
 
@@ -351,6 +367,32 @@ class Prop:
             if ctx.stop():
                 return
 
+    # ================================================================== AsyncLogging (T3)
+    def asynclog_part(self, ctx, flavours):
+        cap = ac.buffer_size()
+        r = ac.Runner(ctx, cap)
+        heavy = ctx.search_mode or not ctx.quick()
+        for fl in flavours:
+            exe = ctx.exe("asynclog_drv", fl)
+            cases = ac.corpus_cases()
+            r.judge(exe, cases)
+            ctx.count("corpus_cases", len(cases))
+            if ctx.stop():
+                return
+            ncases = (1500 if fl == "dbg" else 300) if heavy else 260
+            batch = []
+            for i in range(ncases):
+                batch.append(ac.gen_case(ctx.rng, cap, 5 if heavy else 3, heavy))
+                if len(batch) >= 40:
+                    r.judge(exe, batch)
+                    batch = []
+                    if ctx.stop():
+                        return
+            if batch:
+                r.judge(exe, batch)
+            if ctx.stop():
+                return
+
     # ================================================================== driver
     def correspondence(self, ctx, replay=None):
         flavours = ["dbg"] if ctx.quick() else ["dbg", "asan-ndebug"]
@@ -366,8 +408,26 @@ class Prop:
                     for a, b in zip(impl, model):
                         print("impl : %s\nmodel: %s" % (ctx.observable(a), ctx.observable(b)))
                     self.logfile_batch(ctx, exe, lines, "replay")
+            elif engine == "asynclog":
+                cap = ac.buffer_size()
+                r = ac.Runner(ctx, cap)
+                exe = ctx.exe("asynclog_drv", "dbg")
+                cases = ac.read_case_file(replay)
+                for c, (ib, mb) in zip(cases, r.run(exe, cases)):
+                    print("\n".join(c.lines()[:c.header_len()]))
+                    for i, blk in enumerate(ib or []):
+                        print("schedule %s" % " ".join(map(str, c.schedules[i])))
+                        for l in blk:
+                            print("  impl : %s" % l)
+                        for l in (mb[i] if mb and i < len(mb) else []):
+                            print("  model: %s" % l)
+                        print("  oracle: %s" % (ac.oracle(c, blk, cap) or "ok"))
+                r.judge(exe, cases)
             return
         self.logfile_part(ctx, flavours)
+        if ctx.stop():
+            return
+        self.asynclog_part(ctx, flavours)
 
 
 PROP = Prop()
